@@ -135,6 +135,14 @@ def check_C03(ctx):
         c = sc.copy(); c.mode = "single:" + t.name; c.kill = None
         singles.append(c)
     scens += singles
+    # the same trees with every test in the reporting process (CGREEN_NO_FORK): what a reporter keeps per test is then shared by all tests
+    shared = []
+    for sc in scens[:sizes(ctx, 80, 800)]:
+        if sc.mode != "fork" or sc.kill or any(a[0] in "KEUZ" for _, t in sc.root.tests() for a in t.acts()):
+            continue
+        c = sc.copy(); c.mode = "inproc"
+        shared.append(c)
+    scens += shared
     reporters = ["text", "quiet", "cute", "libxml"]
     dis, orf = explore(ctx, bench, scens, reporters, oracle_C03, "C03")
     report(ctx, bench, dis, orf, oracle_C03, "C03")
@@ -798,9 +806,16 @@ def check_C13(ctx):
     for i in range(sizes(ctx, 60, 800)):
         n = rng.choice([2, 3, 4, 5])
         tests = [gen_fw_test(rng, f"t{k}", allow_read_global=False) for k in range(n)]
-        if rng.random() < 0.2:
+        if i in (1, 2):      # an all-green run whose last (i == 1) or first (i == 2) test is switched off: the program's exit status is the same in every mode
+            tests = [T("t0", body=["P"]), T("t1", body=["P", "P"]), T("t2", body=["P"])]
+            tests.insert(3 if i == 1 else 0, T("x", x=1, body=["P"]))
+        if i in (1, 2):
+            pass
+        elif rng.random() < 0.2:
             tests.insert(rng.randrange(n), T("x", x=1, body=["P"]))
-        if rng.random() < 0.2:
+        elif i % 5 == 2:
+            tests.append(T("x", x=1, body=["P"]))      # a switched-off test is the last thing the process meets
+        if i not in (1, 2) and rng.random() < 0.2:
             tests[0].body.append("S")
         root = S("top", items=[S("inner", items=[t.copy() for t in tests[:1]])] + [t.copy() for t in tests[1:]]) if i % 3 == 0 else S("top", items=[t.copy() for t in tests])
         if i % 4 == 1 and len(tests) >= 4:
@@ -848,6 +863,8 @@ def check_C13(ctx):
             errs.append(f"totals forked {ta}, CGREEN_NO_FORK {tb}")
         if status_of(obs[a]) != status_of(obs[b]):
             errs.append(f"verdict forked {status_of(obs[a])}, CGREEN_NO_FORK {status_of(obs[b])}")
+        elif obs[a].rc != obs[b].rc and not obs[a].timeout and not obs[b].timeout:
+            errs.append(f"the test program's exit status is {obs[a].rc} forked and {obs[b].rc} with CGREEN_NO_FORK (both runs returned {status_of(obs[a])})")
         for name, idx in singles:
             fs = fw_observed(obs[idx], scens[idx])
             if fs.get(name) != fa.get(name):
@@ -1809,6 +1826,11 @@ def check_C20(ctx):
         scens.append(Scen(root)); labels.append(f"suites nested {depth} deep")
     for count in (step - 1, step, step + 1, 2 * step + 1):
         scens.append(Scen(S("top", items=[T(f"t{i}", body=["P"] if i % 7 else ["F"]) for i in range(count)]))); labels.append(f"{count} tests in one suite")
+    # any number of sibling sub-suites: a test run by name is found in whichever of them it is
+    for nsib in (1, 2, 3, 6, 17):
+        for pick in sorted({0, nsib // 2, nsib - 1}):
+            root = S("top", items=[S("mid", items=[S(f"s{i}", items=[T(f"t{i}", body=["P", "F"])]) for i in range(nsib)])])
+            scens.append(Scen(root, mode=f"single:t{pick}")); labels.append(f"{nsib} sibling sub-suites, the test in sub-suite {pick} run by name")
     # the results of one test outgrow what a reporter keeps them in (the libxml2 reporter reads a test's results back through a
     # buffer that starts at 4096 bytes; a failure is some 200 bytes)
     for nf in ([1, 15, 19, 20, 21, 22, 25, 45, 300] if ctx.tier == "quick" else [1, 10, 15, 17, 18, 19, 20, 21, 22, 23, 24, 25, 30, 40, 41, 42, 45, 80, 90, 170, 300, 700]):
@@ -2039,6 +2061,11 @@ def gen_bind_tu(rng, nfuncs):
         expected.append((f"fn_m: {desc}", want, msnip + f"\n/* expect(fn_m, {cl}); fn_m(11, 22, 33); */"))
     calls.append('  { intptr_t got = -1; npass = nfail = 0; expect(fn_m, will_capture_parameter(source_m, got)); fn_m(11, 22, 33); clear_mocks(); printf("%d %d %s\\n", npass, nfail, got == 22 ? "ok" : "wrong"); }')
     expected.append(("fn_m: will_capture_parameter() on a parameter whose name is a macro for another parameter", "0 0 ok", msnip))
+    for setter in ("will_set_contents_of_parameter", "will_set_contents_of_output_parameter"):
+        calls.append(f'  {{ static int v = 4711; int b1 = 0, b2 = 0; npass = nfail = 0; expect(fn_m, {setter}(source_m, &v, sizeof(v))); fn_m(11, (intptr_t)&b1, (intptr_t)&b2); clear_mocks(); printf("%d %d %s\\n", npass, nfail, b1 == 4711 && b2 == 0 ? "written" : "wrong"); }}')
+        expected.append((f"fn_m: {setter}() on a parameter whose name is a macro for another parameter", "0 0 written", msnip + f"\n/* expect(fn_m, {setter}(source_m, &v, sizeof(v))); fn_m(11, &b1, &b2); */"))
+        calls.append(f'  {{ static int v = 4711; int b1 = 0; npass = nfail = 0; expect(fn_m, {setter}(length_m, &v, sizeof(v))); fn_m((intptr_t)&b1, 22, 33); clear_mocks(); printf("%d %d %s\\n", npass, nfail, b1 == 4711 ? "written" : "wrong"); }}')
+        expected.append((f"fn_m: {setter}() on a parameter whose name is a macro for a constant", "0 0 written", msnip + f"\n/* expect(fn_m, {setter}(length_m, &v, sizeof(v))); fn_m(&b1, 22, 33); */"))
     out.append("int main(void) {\n  TestReporter *reporter = create_reporter();\n  reporter->assert_true = &capture;\n  setup_reporting(reporter);\n  current_test = &dummy;\n  setvbuf(stdout, NULL, _IONBF, 0);\n"
                "  /* the reporter's counters as a test finds them when earlier tests of its suite and earlier suites have failed */\n  reporter->failures = 2; reporter->total_failures = 5; reporter->passes = 1;")
     out += calls
@@ -2485,6 +2512,13 @@ def check_C09(ctx):
     libs.append((lname, litems))
     for pat in [None, "Ctx:*", "n*", "Ctx:" + "n" * 975, "*:p*", "zz", "Ctx:m*"]:
         runs.append(([(lname, pat)], rng.choice([[], ["-q"], ["--xml", "X"]])))
+    # one suite over several libraries: the final line gives the totals over all of them, wherever the failing tests are
+    green = next((n for n, it in libs if not any(t.endswith("_fails") for _, t in it) and len(it) < 40), None)
+    red = next((n for n, it in libs if any(t.endswith("_fails") for _, t in it) and any(not t.endswith("_fails") for _, t in it) and len(it) < 40), None)
+    if green and red:
+        for pairs in ([(red, None), (green, None)], [(green, None), (red, None)], [(red, None), (green, None), (red, None)]):
+            for o_ in (["-s", "Common"], ["--suite=Common"]):
+                runs.append((pairs, o_))
     unloadable = {bname}
     for _ in range(sizes(ctx, 6, 40)):
         chosen = rng.sample(libs[: min(len(libs), 14)], rng.choice([0, 1, 2]))
@@ -2827,6 +2861,10 @@ def check_C11(ctx):
 
     # ---- (A) outcomes: scenarios as in C01-C03 under both XML reporters: one testcase per executed test, children as the model says ----
     scens = [s for s in small_scope(rng, sizes(ctx, 30, 400))] + [Scen(gen_tree(rng, max_tests=8)) for _ in range(sizes(ctx, 40, 1000))]
+    # a test that has already failed checks when it is skipped at run time, in every mode (what it has written so far is there once)
+    for mode in ("fork", "inproc", "single:t0", "single:t1"):
+        scens.append(Scen(S("top", items=[T("t0", body=["F", "S"]), T("t1", body=["F", "F", "S", "P"]), T("t2", body=["P"])]), mode=mode))
+        scens.append(Scen(S("top", items=[S("inner", items=[T("t0", body=["P", "F", "S"])]), T("t1", body=["S", "F"])]), mode=mode))
     models = run_model_scenarios([s.text() for s in scens])
     # the scenarios' own signals (K11 ...) are test behaviour, not the sanitizer's business
     sig_env = asan_env()
